@@ -664,11 +664,13 @@ def run(chk):
             chk.sample(dict(part=part, family=fam, walk=_slim(walks[len(walks) // 2][:6])))
         chk.notes["%s_transitions" % part] = len(r.emitted)
     # life cycle of single objects (spec/QObjLife.tla): set_zero / set_mode_proj_order / copy against reads
-    from harness.props import objlife
+    from harness.props import objlife, explife
     objlife.run_part(chk, rng)
+    # life cycle of one Experiment (spec/QExpLife.tla): item assignment / setters / copy against runs of its schedules
+    explife.run_part(chk, rng)
     chk.assumptions += [
         "results are compared through hashes of values rounded to 1e-10; operand snapshots are byte-exact",
         "constructors adopt the arrays handed to them (excepted by the property)",
         "the result of a query without explicit atol is a function of the global tolerance in force, which the term records",
     ]
-    return chk.finish(rule="every transition of the two projections of QPool (cache x pure operations x tolerance; estimation with re-used loss/algorithm objects) and of QObjLife (reads x set_zero x set_mode_proj_order x copy, pairs of object kinds) + seeded long walks; each compared with the same call in a fresh world / on a freshly constructed object")
+    return chk.finish(rule="every transition of the two projections of QPool (cache x pure operations x tolerance; estimation with re-used loss/algorithm objects) and of QObjLife (reads x set_zero x set_mode_proj_order x copy, pairs of object kinds) and QExpLife (item assignment x setter x copy x runs of one Experiment) + seeded long walks; each compared with the same call in a fresh world / on a freshly constructed object")
